@@ -92,6 +92,7 @@ type State struct {
 	strObj   map[string]int
 	pj       *ssa.BasicBlock
 	cutSeq   int
+	postInit bool
 }
 
 func (s *State) clone() *State {
@@ -410,6 +411,7 @@ func (x *Exec) globalObj(st *State, g *ssa.Global) int {
 		x.zglobals[name] = true
 	}
 	o := x.newObj(st, "global:"+shortFn(name), "Global", et.String(), x.zeroSlots(et, nil))
+	o.frozen = st.postInit // after package initialisation every global, of any package, is read-only for the API
 	st.globals[g] = o.id
 	return o.id
 }
